@@ -170,3 +170,48 @@ M('c03-lifespan-rollback-runs-shutdown-handlers', 'C03', 'R5', 'falcon/asgi/app.
 M2('c03-decorable-pattern-from-http-methods-only', 'C03', 'R8', [
     {'file': 'falcon/hooks.py', 'old': "from falcon.constants import COMBINED_METHODS", 'new': "from falcon.constants import HTTP_METHODS"},
     {'file': 'falcon/hooks.py', 'old': "'|'.join(method.lower() for method in COMBINED_METHODS)", 'new': "'|'.join(method.lower() for method in HTTP_METHODS)"}])
+
+# ---- wave 5
+M('c03-prepare-dependent-drops-response-only-components', 'C03', 'R3', 'falcon/app_helpers.py',
+  """            if process_request or process_response:
+                request_mw.append((process_request, process_response))  # type: ignore[arg-type]
+""", """            if process_request:
+                request_mw.append((process_request, process_response))  # type: ignore[arg-type]
+""")
+M('c03-prepare-independent-response-needs-request', 'C03', 'R3', 'falcon/app_helpers.py',
+  """            if process_response:
+                response_mw.insert(0, process_response)  # type: ignore[arg-type]
+""", """            if process_response and process_request:
+                response_mw.insert(0, process_response)  # type: ignore[arg-type]
+""")
+M('c03-prepare-resource-only-in-independent-mode', 'C03', 'R3', 'falcon/app_helpers.py',
+  """        if process_resource:
+            resource_mw.append(process_resource)  # type: ignore[arg-type]
+
+    return tuple(request_mw), tuple(resource_mw), tuple(response_mw)""", """        if process_resource and independent_middleware:
+            resource_mw.append(process_resource)  # type: ignore[arg-type]
+
+    return tuple(request_mw), tuple(resource_mw), tuple(response_mw)""")
+M2('c03-dependent-loop-breaks-on-complete', 'C03', 'R2', [
+    {'file': 'falcon/app.py', 'old': """                    if process_response:
+                        dependent_mw_resp_stack.insert(0, process_response)  # type: ignore[arg-type]
+""", 'new': """                    if process_response:
+                        dependent_mw_resp_stack.insert(0, process_response)  # type: ignore[arg-type]
+                    if resp.complete:
+                        break
+"""},
+    {'file': 'falcon/asgi/app.py', 'old': """                    if process_response:
+                        dependent_mw_resp_stack.insert(0, process_response)
+""", 'new': """                    if process_response:
+                        dependent_mw_resp_stack.insert(0, process_response)
+                    if resp.complete:
+                        break
+"""}], also=('C20', 'C06'))
+M('c03-sink-reported-as-resource', 'C03', 'R9', 'falcon/app.py',
+  """                    responder = obj
+
+                    break
+""", """                    responder = resource = obj
+
+                    break
+""")
